@@ -101,8 +101,44 @@ fn foreign_udp(sport: u16, dst: [u8; 4], dport: u16, payload: &[u8]) -> Vec<u8> 
     v
 }
 
+/// Which layer of the real decoders rejects this packet (`None` = every layer accepts it).
+/// A fragment's transport header cannot be decided per frame: `Some("fragment")`.
+fn rejecting_layer(b: &[u8]) -> Option<&'static str> {
+    use elvis_core::protocols::ipv4::ipv4_parsing::Ipv4Header;
+    let ok = crate::worker::catching(|| Ipv4Header::from_bytes(b.iter().copied()).is_ok());
+    if !matches!(ok, Ok(true)) {
+        return Some("ipv4");
+    }
+    if b[6] & 0x3f != 0 || b[7] != 0 {
+        return Some("fragment");
+    }
+    let rest = &b[20..];
+    let (s, d) = (Ipv4Address::new([b[12], b[13], b[14], b[15]]), Ipv4Address::new([b[16], b[17], b[18], b[19]]));
+    let ok = match b[9] {
+        17 => crate::worker::catching(|| elvis_core::protocols::udp::UdpHeader::from_bytes_ipv4(rest.iter().copied(), rest.len(), s, d).is_ok()),
+        6 => crate::worker::catching(|| elvis_core::protocols::tcp::TcpHeader::from_bytes(rest.iter().copied(), rest.len(), s, d).is_ok()),
+        _ => Ok(true),
+    };
+    if matches!(ok, Ok(true)) {
+        None
+    } else if b[9] == 17 {
+        Some("udp")
+    } else {
+        Some("tcp")
+    }
+}
+
 fn foreign_tcp(sport: u16, dst: [u8; 4], dport: u16, seq: u32, ack: Option<u32>, syn: bool, psh: bool, payload: &[u8]) -> Vec<u8> {
     let mut b = PacketBuilder::ipv4(F, dst, 30).tcp(sport, dport, seq, 65535);
+    // bits a receiver does not interpret (NS, CWR, ECE) are still covered by the checksum
+    if sim::chance(1, 4) {
+        sim::count("probe_foreign_segment_with_ecn_bits");
+        match sim::choose(3) {
+            0 => b = b.ns(),
+            1 => b = b.ece(),
+            _ => b = b.cwr(),
+        }
+    }
     if syn {
         b = b.syn();
     }
@@ -180,13 +216,15 @@ impl E2Run for Cksum {
         let log: Arc<Mutex<Log>> = Arc::new(Mutex::new(Log::default()));
         let macs: Arc<Mutex<Vec<u64>>> = Arc::new(Mutex::new(vec![]));
         let flipped: Arc<Mutex<Vec<Vec<u8>>>> = Arc::new(Mutex::new(vec![]));
-        let (l2, m2, f2) = (log.clone(), macs.clone(), flipped.clone());
+        let accepted: Arc<Mutex<Vec<String>>> = Arc::new(Mutex::new(vec![]));
+        let (l2, m2, f2, a2) = (log.clone(), macs.clone(), flipped.clone(), accepted.clone());
         let avoid_zero = opts.avoids("no_zero_checksum_from_peer");
         let (status, state) = sim::run_sim(case, default_cfg(), move || async move {
             draw_scheduler_knobs();
             let flip_pm = *[0u64, 50, 150].get(sim::choose(3) as usize).unwrap();
             let ipv4_t = TypeId::of::<Ipv4>();
             let flipped_log = f2.clone();
+            let accepted_log = a2.clone();
             sim::with_state(|s| {
                 s.policy = Some(Box::new(move |f: &FrameView, s: &mut SimState, _e: u64| -> Option<Verdict> {
                     if f.protocol != ipv4_t || flip_pm == 0 || f.bytes.len() < 28 {
@@ -215,6 +253,16 @@ impl E2Run for Cksum {
                     }
                     flipped_log.lock().unwrap().push(f.bytes.clone());
                     *s.counters.entry("fault_bit_flip".into()).or_insert(0) += 1;
+                    // the decoders themselves: an unchanged packet is accepted, so the altered one must be rejected somewhere
+                    if rejecting_layer(&f.bytes).is_none() {
+                        match rejecting_layer(&b) {
+                            None => accepted_log.lock().unwrap().push(format!(
+                                "{} with bit {b1} (and possibly one more) flipped is accepted by the IPv4 and transport decoders",
+                                describe_ipv4_frame(&f.bytes)
+                            )),
+                            Some(l) => *s.counters.entry(format!("corruption_rejected_by_{l}")).or_insert(0) += 1,
+                        }
+                    }
                     Some(Verdict {
                         copies: vec![FrameCopy {
                             delay: Duration::ZERO,
@@ -491,6 +539,9 @@ impl E2Run for Cksum {
             ));
         }
         // (3) detectable corruption is never delivered
+        for a in accepted.lock().unwrap().iter() {
+            out.violate(Violation::new("corruption-delivered", "decoder-accepts-altered-packet", a.clone()));
+        }
         for r in state.rx.iter().filter(|r| r.machine == 1) {
             let ok = log.udp_sent.iter().any(|(i, l)| r.payload == marked_payload(*i, *l)) || log.foreign_udp_sent.iter().any(|(_, p)| r.payload == *p);
             if !ok {
